@@ -147,3 +147,19 @@ package gen
 //@   ensures [links_complete] forall t any :: rel(tm, relationKey{consumer, t, false}) ==> !(forall i int :: 0 <= i && i < len(result.0) ==> result.0[i] != t)
 //@   ensures [monitors_sound] forall i int, t any :: 0 <= i && i < len(result.1) && result.1[i] == t ==> rel(tm, relationKey{consumer, t, true})
 //@   ensures [monitors_complete] forall t any :: rel(tm, relationKey{consumer, t, true}) ==> !(forall i int :: 0 <= i && i < len(result.1) ==> result.1[i] != t)
+
+// CleanupNode (C14): the connection to `node` is lost. Relations whose consumer lived there are
+// dropped, relations whose target lived there are dropped (and reported); everything else stays,
+// and the representation invariant is kept.
+//@ spec func onNode(t any, node Atom) bool = (typeis(t, PID) && t.(PID).Node == node) || (typeis(t, ProcessID) && t.(ProcessID).Node == node) || (typeis(t, Alias) && t.(Alias).Node == node) || (typeis(t, Event) && t.(Event).Node == node) || (typeis(t, Atom) && t.(Atom) == node)
+//@ func (tm *defaultTargetManager) CleanupNode
+//@   props C04 C14
+//@   mode int
+//@   requires [wf] tmWF(tm)
+//@   loop 1 invariant [fields] tm.relations == old(tm.relations) && tm.targetIndex == old(tm.targetIndex)
+//@   loop 1 invariant [wf_inv] tmWF(tm)
+//@   loop 1 invariant [rel_minus_seen] forall k relationKey :: has(tm.relations, k) <==> (old(has(tm.relations, k)) && !(seen(1, k) && (k.consumer.Node == node || onNode(k.target, node))))
+//@   loop 1 invariant [seen_sub] forall k relationKey :: seen(1, k) ==> old(has(tm.relations, k))
+//@   loop 1 invariant [result_maps] linkTargetsWithConsumers != nil && monitorTargetsWithConsumers != nil && linkTargetsWithConsumers != monitorTargetsWithConsumers
+//@   ensures [relations_with_node_gone] forall k relationKey :: rel(tm, k) <==> (old(rel(tm, k)) && k.consumer.Node != node && !onNode(k.target, node))
+//@   ensures [wf_kept] tmWF(tm)
